@@ -59,6 +59,18 @@ pub fn tick(label: &str) {
     }
 }
 
+/// The storage operation of the latest tick has completed; `wrote` = it changed at least one row.
+pub fn note_write(wrote: bool) {
+    STATE.with(|s| {
+        let mut s = s.borrow_mut();
+        if s.recording {
+            if let Some(l) = s.labels.last_mut() {
+                l.push_str(if wrote { " W" } else { " R" });
+            }
+        }
+    });
+}
+
 /// Tick labelled with the call site of the storage access.
 #[track_caller]
 pub fn tick_here() {
